@@ -54,6 +54,11 @@ def mapDel (m : GoMap) (k : Key) : GoMap := m.filter (fun e => e.1 != k)
 /-- `maps.Copy(dst, src)`. -/
 def mapCopy (dst src : GoMap) : GoMap := src.foldl (fun d e => mapSet d e.1 e.2) dst
 
+/-- the loop of the error branch of persist (memcached_store.go:431-440):
+`for k, v := range src { if _, ok := dst[k]; !ok { dst[k] = v } }` — `dst` keeps its (newer) values. -/
+def mapFill (dst src : GoMap) : GoMap :=
+  src.foldl (fun d e => match mapGet d e.1 with | none => mapSet d e.1 e.2 | some _ => d) dst
+
 /-- `chooseMap` (memory_store.go:39-46): STStorage 0x70 / STTempStorage 0x71 go to `stor`.
 The Go code panics on an empty key (`key[0]`); the model sends it to `mem` (callers never do it). -/
 def isStor : Key → Bool
@@ -306,10 +311,14 @@ def Store.persist3 : Store → Store
   | .cached L (.cached _ ps) => .cached L ps
   | s => s
 
-/-- step 3, failure (l.427-434): the new writes are copied over the old maps, which come back. -/
+/-- the store's NEW maps after the error branch (memcached_store.go:427-441, since 3a75687): the entries of
+the tempstore `T` are moved into the new maps `F` unless those have newer values; `T`'s maps are not touched. -/
+def fillLayer (F T : Layer) : Layer := { F with mem := mapFill F.mem T.mem, stor := mapFill F.stor T.stor }
+
+/-- step 3, failure (l.427-442): what the tempstore holds is moved into the new maps, newer values
+win; `s.ps = tempstore.ps`. -/
 def Store.persist3Fail : Store → Store
-  | .cached L (.cached T ps) =>
-    .cached { L with mem := mapCopy T.mem L.mem, stor := mapCopy T.stor L.stor } ps
+  | .cached L (.cached T ps) => .cached (fillLayer L T) ps
   | s => s
 
 /-- `persist` of a private store (l.382-394) and the whole of a shared `persist` when nothing
